@@ -41,7 +41,7 @@ def build(config, tier):
             args = "fov, aspect, near, far" if kind == "fanf" else "fov, aspect, near"
             zsign = "-" if hand < 0 else ""
             body = ("unsafe { crate::uf::TAN%d_MODE = crate::uf::POW2; crate::uf::SINCOS%d_MODE = crate::uf::POW2; }\n"
-                    "    let fov: %s = vk::any(); let aspect: %s = %s; let near: %s = %s; let far: %s = near * 2.0;\n"
+                    "    let fov: %s = vk::any(); vk::assume(fov.is_finite()); let aspect: %s = %s; let near: %s = %s; let far: %s = near * 2.0;\n"
                     "    let m = <%s>::%s(%s);\n"
                     "    // half-height of the frustum at distance 1: tan(fov/2), through whichever function the constructor uses\n"
                     "    let f = m.to_cols_array()[5]; let th = (1.0 as %s) / f;\n"
